@@ -30,7 +30,10 @@ NODE_FEATS = ['StatAssignment', 'StatAssignment:compound', 'StatFunctionCall', '
 
 def plan(tier, seed):
     n = 16 if tier == 'quick' else 64
-    return [{'count': 150 if tier == 'quick' else 900, 'deep': tier == 'thorough' and i % 4 == 0} for i in range(n)]
+    specs = [{'count': 150 if tier == 'quick' else 900, 'deep': tier == 'thorough' and i % 4 == 0} for i in range(n)]
+    for i in range(3 if tier == 'quick' else 12):
+        specs.append({'kind': 'big', 'count': 2, 'bias': ('shortif', 'blocks', 'mixed')[i % 3]})
+    return specs
 
 
 def shortif_context(p, src):
@@ -140,8 +143,40 @@ def poison_parser(rng, parser_obj, p):
     return False
 
 
+def run_big(spec, ctx):
+    """Cart-sized programs: hundreds of statements in one chunk (several hundred short-ifs / block statements in total, none deeply
+    nested), the sizes at which per-program counters or limits inside a parser would show."""
+    rng = ctx.rng
+    bias = {'shortif': ['shortif'] * 40, 'blocks': ['if', 'do', 'while', 'forstep', 'function', 'repeat'] * 6,
+            'mixed': ['shortif'] * 12 + ['if', 'do', 'forin', 'localfunction', 'qprint', 'compound'] * 3}[spec['bias']]
+    done = 0
+    for i in range(spec['count'] * 4):
+        if done >= spec['count']:
+            break
+        p = progen.gen_program(rng, {'depth': 2, 'max_stmts': 2, 'top_stmts': (500, 350)[i % 2], 'stat_bias': bias,
+                                     'exotic_numbers': True, 'exotic_strings': True, 'goto': False})
+        src = layout.render(p, rng, style=rng.choice(('normal', 'lines', 'tight')))
+        if src is None:
+            ctx.monitor('generator_rejects')
+            continue
+        nshort = sum(1 for (a, b, k) in p.scopes if k is True and p.toks[a][1] == b'if')
+        nblocks = sum(1 for (k, raw) in p.toks if k == 'keyword' and raw in (b'do', b'then', b'function', b'repeat'))
+        ctx.feature('big_programs')
+        done += 1
+        if nshort > 200:
+            ctx.feature('program_with_over_200_short_ifs')
+        if nblocks > 250:
+            ctx.feature('program_with_over_250_blocks')
+        ctx.monitor('big_program_tokens', len(p.toks))
+        check_program(ctx, p, src, 'big')
+    ctx.sample({'big_program': '350-500 top-level statements biased to %s' % spec['bias']})
+
+
 def run_shard(spec, ctx):
     rng = ctx.rng
+    if spec.get('kind') == 'big':
+        run_big(spec, ctx)
+        return
     from pico8.lua import parser as _parser
     shared = _parser.Parser(version=8)
     for i in range(spec['count']):
@@ -155,6 +190,14 @@ def run_shard(spec, ctx):
             continue
         ctx.feature('depth_%d' % depth)
         check_program(ctx, p, src, 'program')
+        if i % 5 == 2 and b'\r' not in src:
+            # classic-Mac line ends: every line break a lone CR (the lexer has a newline rule for it); the tree is the same tree
+            cr = src.replace(b'\n', b'\r')
+            if layout.verify_tokens_only(p, cr):
+                ctx.feature('bare_cr_line_ends')
+                if 'shortif' in p.feats:
+                    ctx.feature('bare_cr_with_short_if')
+                check_program(ctx, p, cr, 'program-cr')
         if i % 3 == 0:
             if poison_parser(rng, shared, p):
                 ctx.feature('failed_parse_before_reuse')
@@ -214,6 +257,11 @@ def gates(m, tier):
             missed.append('%s seen %d times' % (k, f.get(k, 0)))
     if mon.get('reused_parser_parses', 0) < 200 or f.get('failed_parse_before_reuse', 0) < 50:
         missed.append('parser reuse: %d parses, %d after a failed parse' % (mon.get('reused_parser_parses', 0), f.get('failed_parse_before_reuse', 0)))
+    if f.get('program_with_over_200_short_ifs', 0) < 1 or f.get('program_with_over_250_blocks', 0) < 1 or f.get('big_programs', 0) < 4:
+        missed.append('big programs %d (over 200 short-ifs: %d, over 250 blocks: %d)' % (
+            f.get('big_programs', 0), f.get('program_with_over_200_short_ifs', 0), f.get('program_with_over_250_blocks', 0)))
+    if f.get('bare_cr_with_short_if', 0) < 30:
+        missed.append('bare-CR sources with a short-if: %d' % f.get('bare_cr_with_short_if', 0))
     if mon.get('trees_compared', 0) < 1000:
         missed.append('trees compared: %d' % mon.get('trees_compared', 0))
     return missed
